@@ -39,6 +39,28 @@ add('C26', 'exploration',
     'ping() emits exactly one PING or raises. Bursts up to 200 PINGs per call, arbitrary chunking, both roles.',
     'Input side is parsed by the independent codec; GOAWAY ends a case (pending output is legitimately discarded).')
 
+add('C03', 'exploration',
+    'runtime monitoring: shadow send-window model from wire observations + exact-fit / fit+1 probes',
+    'Shadow connection/stream send windows are computed only from what the scripted peer delivered and what E emitted '
+    '(independent codec). Every emitted DATA frame, every local_flow_control_window answer after every step, and '
+    'exact-fit / one-byte-more probes (with and without padding, incl. negative windows) are judged. Held/violated on '
+    'the generated histories only.',
+    'Shadow written from RFC 7540 section 6.9; payloads capped at 2^17 bytes (larger windows probe the frame-size limit instead).')
+
+add('C04', 'exploration',
+    'runtime monitoring: shadow advertised-window model from E's wire + boundary-sized hostile DATA',
+    'Advertised windows are reconstructed from WINDOW_UPDATE/SETTINGS frames actually emitted and the moment the SETTINGS '
+    'ACK is delivered; the peer sizes DATA against them (exact fit, fit-1, overrun by one, padding 0..255). '
+    'remote_flow_control_window and the public connection inbound window are compared after every step; raising '
+    'increments must leave every window unchanged.',
+    'At most one SETTINGS frame in flight (settings/ACK matching is C11); increases that would overflow an existing window are undetermined.')
+
+add('C05', 'exploration',
+    'runtime monitoring: quiescent-point invariant (all bytes acknowledged => windows positive) + conservation of credit',
+    'Liveness restated as safety at forced quiescent points; credit conservation (sum of automatic WINDOW_UPDATE <= bytes '
+    'acknowledged per scope) and window <= maximum checked after every step, over maxima 0..2^31-1 changed mid-history.',
+    'No manual window increments in this workload (they redefine the maximum); one SETTINGS frame in flight at a time.')
+
 NOT_BUILT_REASON = 'check not built yet in this session (planned in DESIGN.md; no verdict claimed)'
 
 def main():
